@@ -174,6 +174,8 @@ val fold_right : ('a2 -> 'a1 -> 'a1) -> 'a1 -> 'a2 list -> 'a1
 
 val forallb : ('a1 -> bool) -> 'a1 list -> bool
 
+val filter : ('a1 -> bool) -> 'a1 list -> 'a1 list
+
 val repeat : 'a1 -> nat -> 'a1 list
 
 module Z :
@@ -638,5 +640,141 @@ val s_rows : value list list -> sexp
 val s_job : job_result -> sexp
 
 val run_run : sexp -> sexp
+
+val member_type : char list -> member list -> char list option
+
+val count_member : char list -> member list -> nat
+
+val column_types :
+  member list -> branch list -> (char list * char list) list option
+
+val nodup_str : char list list -> bool
+
+val col_type : char list -> (char list * char list) list -> char list option
+
+val is_col : (char list * char list) list -> char list -> bool
+
+val is_vec_col : (char list * char list) list -> char list -> bool
+
+val is_scalar_col : (char list * char list) list -> char list -> bool
+
+val vec_cols : (char list * char list) list -> char list list
+
+val none_is_col : (char list * char list) list -> char list list -> bool
+
+val strip_clears : char list list -> stmts -> stmts option
+
+val fill_line_ok : bool -> char list -> char list -> bool
+
+val ok_block :
+  bool -> char list -> (char list * char list) list -> block -> bool
+
+val branches_ok : program -> bool
+
+val fill_consistent_for : bool -> program -> bool
+
+val run_fillcheck : sexp -> sexp
+
+type backend =
+| BeAtlas
+| BeCmsAod
+| BeCmsMiniaod
+
+val prefix_of : backend -> char list
+
+type colrep =
+| KVal of char list * char list option
+| KSeq of colrep
+| KColl of char list
+| KStruct of bool
+
+type rowshape =
+| RDict of (char list * colrep) list
+| RTuple of colrep list
+| RSingle of colrep
+
+type names_arg =
+| NList of char list list
+| NStr of char list
+
+type terminal =
+| TImplicit
+| TExplicit of names_arg * char list
+
+val unique_name : char list -> bool -> nat -> char list
+
+val vector_of : char list -> char list
+
+val cpp_type_of : colrep -> char list result
+
+val tree_type_of : colrep -> char list result
+
+val get_ttree_type : colrep -> char list result
+
+val rep_is_collection : colrep -> bool
+
+val extract_column_names : names_arg -> char list list
+
+val default_names_from : nat -> nat -> char list list
+
+val default_names : nat -> char list list
+
+type ttree_call = { tc_names : names_arg; tc_tree : char list;
+                    tc_cols : colrep list }
+
+val row_columns_explicit : rowshape -> colrep list
+
+val get_as_ROOT : backend -> terminal -> rowshape -> ttree_call result
+
+type column = { c_name : char list; c_var : char list; c_type : char list;
+                c_is_vec : bool }
+
+type schema = { sc_tree : char list; sc_columns : column list;
+                sc_class_decl : char list list; sc_book : char list list;
+                sc_fill : char list; sc_clears : char list list;
+                sc_descr : (char list * char list); sc_next_index : nat }
+
+val make_columns : char list list -> colrep list -> nat -> column list result
+
+val fill_assert : colrep list -> unit result
+
+val class_declaration_code : column list -> char list list
+
+val branch_line : column -> char list
+
+val book_emit : backend -> char list -> column list -> char list list
+
+val fill_emit : backend -> char list -> char list
+
+val descriptor_file : char list
+
+val call_ResultTTree : backend -> nat -> ttree_call -> schema result
+
+val translate_terminal :
+  backend -> nat -> terminal -> rowshape -> schema result
+
+val expected_names : terminal -> rowshape -> char list list
+
+val expected_tree : backend -> terminal -> char list
+
+val d_backend : sexp -> backend option
+
+val d_colrep_fuel : nat -> sexp -> colrep option
+
+val sexp_size : sexp -> nat
+
+val d_colrep : sexp -> colrep option
+
+val d_row : sexp -> rowshape option
+
+val d_terminal : sexp -> terminal option
+
+val s_column : column -> sexp
+
+val s_schema : schema -> sexp
+
+val run_schema : sexp -> sexp
+
+val run_expected : sexp -> sexp
 
 val dispatch : char list -> sexp -> sexp
